@@ -88,7 +88,9 @@ for _p, _t in BROKER_TEXT.items():
     CLAIMED[_p] = ("model_checking", BROKER_TECH, _t, BROKER_NOTE, "DESIGN.md section 5 " + _p)
 
 CLIENT_TECH = ("TLA+ specification Client.tla (event-granular: API threads, processor goroutine, die/cleanup without the API mutex, session, future store) bound to the real "
-               "client.Client by trace validation: scripted broker over a harness-owned link, wrapped session, a waiter per future; every trace checked by TLC (ClientTrace.tla)")
+               "client.Client by trace validation: scripted broker over a harness-owned link, wrapped session, a waiter per future; every trace checked by TLC (ClientTrace.tla); "
+               "the same actions closed with an application script, a conformant scripted broker, cuts and a resuming client object (ClientMC.tla) are model-checked exhaustively "
+               "(FutureTruth, KeepUntilAck, CallbackOnce, AckOnlyIfAccepted, NoPendingAfterEnd, liveness Returns; witnesses; the known finding reproduced at design level)")
 CLIENT_NOTE = ("Trusted: TLC; the harness ordering argument (link + log atomic, session wrapper makes operation + log entry one step); scripted broker; rejected scenarios are re-driven "
                "slowly; one known finding (die() vs API race) is accepted only under its named deviation. Bounded scenario families.")
 CLAIMED["C09"] = ("model_checking", CLIENT_TECH,
